@@ -270,7 +270,11 @@ class DirectCollocation(SamplingMethod):
             if a in algs:
                 initial_alg[a] = v
                 del initial[a]
-        for var, expr in initial.items():
+        # numeric guesses first (in call order): guesses that are expressions of time are evaluated on the time grid
+        # implied by the guessed t0/T, whichever was given first
+        items = list(initial.items())
+        items = [e for e in items if is_numeric(e[1])] + [e for e in items if not is_numeric(e[1])]
+        for var, expr in items:
             if ca.is_equal(var, stage.T):
                 var = self.T
             if ca.is_equal(var, stage.t0):
